@@ -218,18 +218,19 @@ type WritersDecl struct {
 }
 
 type SpecFile struct {
-	Writers []WritersDecl
-	Tags    []TagDecl
-	File    string
-	PkgName string
-	Ghosts  []GhostDecl
-	UFuncs  []UFuncDecl
-	Pures   []*PureDecl
-	Funcs   []*FuncContract
-	Axioms  []Clause
-	Lemmas  []Clause
-	Types   map[string][]Binder // spec-level tuple types
-	Determ  []string            // receivers / functions whose contract-less extern methods are deterministic
+	Confined []ConfinedDecl
+	Writers  []WritersDecl
+	Tags     []TagDecl
+	File     string
+	PkgName  string
+	Ghosts   []GhostDecl
+	UFuncs   []UFuncDecl
+	Pures    []*PureDecl
+	Funcs    []*FuncContract
+	Axioms   []Clause
+	Lemmas   []Clause
+	Types    map[string][]Binder // spec-level tuple types
+	Determ   []string            // receivers / functions whose contract-less extern methods are deterministic
 }
 
 // ---------------------------------------------------------------------------
@@ -690,7 +691,7 @@ func parseExprString(s string) (e Expr, err error) {
 // ---------------------------------------------------------------------------
 // Contract file reader
 
-var topKeywords = map[string]bool{"opaque": true, "deterministic": true, "func": true, "ghost": true, "ufunc": true, "pure": true, "pred": true, "axiom": true, "lemma": true, "type": true, "extern": true, "tag": true, "verified": true, "writers": true}
+var topKeywords = map[string]bool{"opaque": true, "deterministic": true, "func": true, "ghost": true, "ufunc": true, "pure": true, "pred": true, "axiom": true, "lemma": true, "type": true, "extern": true, "tag": true, "verified": true, "writers": true, "confined": true}
 var clauseKeywords = map[string]bool{"unfold": true, "fold": true, "owns": true, "reveal": true, "cases": true, "dispatch": true, "requires": true, "ensures": true, "modifies": true, "serves": true, "loop": true, "invariant": true,
 	"at": true, "after": true, "assert": true, "assume": true, "flag": true, "set": true, "uses": true}
 
@@ -938,6 +939,14 @@ func readSpecFile(path string, isSpec bool) (*SpecFile, error) {
 				return nil, perr(g, err)
 			}
 			sf.Pures = append(sf.Pures, pd)
+			cur = nil
+		case "confined":
+			cd, err := parseConfined(rest)
+			if err != nil {
+				return nil, perr(g, err)
+			}
+			cd.Line = g.line
+			sf.Confined = append(sf.Confined, cd)
 			cur = nil
 		case "writers":
 			// writers pkg.Type.Field[[]] serves Cxx ... = fnkey fnkey ...
